@@ -85,7 +85,7 @@ func (e *env) judgeSigners(res *Res, part string, avail []uint64, c Case, id, at
 		res.saw(part + ":too-few:" + failure)
 		return
 	}
-	if failed && c.Param != "" {
+	if failed && c.Param != "" && c.Param != "max_group_size" {
 		res.saw(part + ":failed:" + failure)
 		return
 	}
